@@ -243,6 +243,22 @@ Verify(items, excess) ==   \* items: sequence of <<root, height>>
   IN [state |-> CASE mx = 0 -> "CONFIRMED" [] mx = 1 -> "UNABLE_TO_VERIFY" [] OTHER -> "INVALID",
       items |-> vs]
 
+
+\* C02: verdicts are exact functions of the longest chain, and they track reorganisations
+VerdictsExact ==
+  \A i \in Stored : \A ex \in {0, 1} :
+     LET v == Verdict(rows[i].root, rows[i].height, ex).v IN
+       /\ (i \in Longest => v = "CONFIRMED")
+       /\ (v = "CONFIRMED" => \E j \in Longest : rows[j].height = rows[i].height /\ rows[j].root = rows[i].root)
+       /\ Verdict(UnknownKey, TipH + 1, ex).v = (IF ex >= 1 THEN "UNABLE_TO_VERIFY" ELSE "INVALID")
+       /\ Verdict(UnknownKey, TipH, ex).v = "INVALID"
+VerdictOn(r, root, h) == \E i \in LongestOf(r) : r[i].height = h /\ r[i].root = root
+VerdictsTrackChain ==
+  [][\A i \in DOMAIN rows :
+        /\ (rows[i].st = "L" /\ rows'[i].st # "L" /\ ~VerdictOn(rows', rows[i].root, rows[i].height)
+               => Verdict(rows[i].root, rows[i].height, 0).v = "CONFIRMED")
+        /\ (rows[i].st # "L" /\ rows'[i].st = "L" => VerdictOn(rows', rows[i].root, rows[i].height))]_cvars
+
 \* C08  (keys are merkle-root classes; meaningful when roots are pairwise distinct)
 RootAt(h)      == rows[CHOOSE i \in AtHeight(h) : TRUE].root
 HoldersOf(key) == {i \in Stored : rows[i].root = key}
@@ -270,6 +286,17 @@ WalkCoversLongestOnce ==
 PagesBounded ==
   DistinctRoots => \A n \in 0 .. TipH + 3 : \A k \in {NoKey} \cup {rows[i].root : i \in Longest} :
                       Len(MerklePage(n, k).content) <= n
+
+\* C08: a walk in progress survives growth of the tip between two pages: every key handed out before
+\* stays valid and the page after it only grows
+WalkSurvivesTipGrowth ==
+  [][(DistinctRoots' /\ Longest \subseteq LongestOf(rows')) =>
+        \A k \in {rows[i].root : i \in Longest} : \A n \in 1 .. 3 :
+           LET a == MerklePage(n, k)
+               b == MerklePage(n, k)'
+           IN /\ "err" \notin DOMAIN b
+              /\ Len(a.content) <= Len(b.content)
+              /\ \A j \in 1 .. Len(a.content) : a.content[j] = b.content[j]]_cvars
 
 \* C13
 RECURSIVE LocH(_, _, _)
